@@ -34,7 +34,7 @@ def history(rng, dups, style):
     return h
 
 def run(ck):
-    ck.level = "translation_validation"
+    ck.level = "proof"
     ck.cov["rule"] = ("histories of insert / find / remove-by-position / forward+backward walk / free, duplicates on and off, key orders random, ascending, "
                       "descending, zig-zag; after every call the whole shape (node id, key, balance factor, parent id in pre-order), size and comparator-call count "
                       "are compared with the model; the harness itself checks iterator stability, destroy-once, callback user data, allocator balance")
